@@ -22,9 +22,9 @@ from sa.index import AnalysisError, loc, norm
 from sa.affine import Aff
 from sa.cfg import CFG, calls_at
 
-LEVEL = "proof"
+LEVEL = "other"
 MANIFEST = {
-    "level": "proof",
+    "level": "other",
     "text": "The length clause is proved structurally: for each of the "
             "statements that append to the output an affine upper bound in "
             "(L, |c_start|, |c_end|) is derived from the guards that "
@@ -35,7 +35,11 @@ MANIFEST = {
             "find_break_point calls that can raise outside a handler. The "
             "continuation table is compared with the free-form rules. This "
             "holds for every input text and every limit.",
-    "note": "That the wrapped text is the same program is NOT decided: the "
+    "note": "Claimed as 'other', not 'proof': two obligations (the "
+            "unprotected find_break_point calls) are undischarged known "
+            "findings; the bound derivation itself is exhaustive over the "
+            "emit sites. "
+            "That the wrapped text is the same program is NOT decided: the "
             "splitter is unaware of character literals and trailing "
             "comments (a statement about all Fortran lines, not about this "
             "function's shape). str.rfind / slicing semantics trusted.",
